@@ -552,12 +552,21 @@ static void stage_gram(void) {
     if (!t) continue;
     vb_reset(&x);
     ref_encode_src(t, &x);
+    size_t tree_nodes = rn_count(t);
     rn_free(t);
     vh_count_dyn(u < nsys ? "base_items.systematic" : "base_items.random", 1);
     run_input(x.p, x.n);
     uint64_t uh = (u * 0x9e3779b97f4a7c15ull) >> 40; /* decorrelated from the shard assignment */
     bool full = u < nsys ? (O.thorough || (uh % 8 == 0)) : (uh % 64 == 0);
-    if (x.n <= 4096) gen_neighbours(x.p, x.n, full, input_cb, NULL);
+    if (x.n <= 1200 && tree_nodes <= 150) gen_neighbours(x.p, x.n, full, input_cb, NULL);
+    else if (x.n <= 40000) { /* big items: the item itself, a spread of truncations and a few corruptions (cost per case grows with the item) */
+      for (int k = 1; k <= 12; k++) run_input(x.p, x.n * (size_t)k / 13);
+      run_input(x.p, x.n - 1);
+      struct vh_buf m = {0};
+      for (int k = 0; k < 6; k++) { vb_reset(&m); vb_put(&m, x.p, x.n); m.p[(x.n * (size_t)(2 * k + 1)) / 12] ^= (uint8_t)(0x80 >> k); run_input(m.p, m.n); }
+      vb_reset(&m); vb_put(&m, x.p, x.n); vb_u8(&m, 0xff); run_input(m.p, m.n);
+      vb_free(&m);
+    }
     /* havoc: several random edits at once (beyond the single-edit neighbourhood) */
     if (x.n >= 2 && x.n <= 2048) {
       struct vh_rng hr;
